@@ -252,6 +252,8 @@ class Sim:
         self.run = run
         self.cfg = run["config"]
         self.clean = run.get("clean", True)
+        # which recorded findings' triggers the step executor steers around
+        self.steer = set(run.get("steer", ("F-EARLY", "F-LOCK") if self.clean else ()))
         self.props = props          # None == record everything
         self.loop = SimLoop(hash_mask=self.cfg.get("hmask", 0))
         self.loop.set_debug(False)
@@ -591,7 +593,14 @@ class Sim:
                 sim._op_point(which, trec)
                 if base == "g" and not trec.inv_probe():
                     sim.stats["fault:slow_callback"] += 1
-                    await sim._gate(("c", which, trec.req.label, trec.k))
+                    fut = sim._gate(("c", which, trec.req.label, trec.k))
+                    try:
+                        await fut
+                    except CancelledError:
+                        if not fut.cancelled() and not sim.torn:
+                            # nobody cancelled what the callback awaits: the cancellation was aimed at the task
+                            sim.violate("C03", "callback_interrupted", f"{which} of {trec.name} was interrupted by a CancelledError: callbacks must run to completion")
+                        raise
                     sim.ev("cb_post", which, trec.n)
                 if raising and not trec.inv_probe():
                     raise mk_exc(trec)
@@ -671,7 +680,7 @@ class Sim:
         self.ev("ws", pc.idx, trec.n)
         if pc.size is not None and pc.live > pc.size and not pc.size_changed:
             self.violate("C01", "live_over_size", f"{pc.pool_str}: {pc.live} workers live, size {pc.size}")
-        if req.cancelled_seq is not None and self.clean:
+        if req.cancelled_seq is not None:
             self.violate("C07", "start_after_cancel", f"{trec.name} of cancelled r{req.label} started")
         if pc.closed:
             self.violate("C08", "start_after_close", f"{trec.name} started in closed pool")
@@ -897,7 +906,8 @@ class Sim:
                 self._check_limit(pc)
             if nr != pc.n_run:
                 self.violate("C02", "idle_running", f"idle: {pc.pool_str}.num_running={nr} but {pc.n_run} tasks are in flight")
-            if not pc.size_changed and pc.size is not None and cbs == 0:
+            if not pc.size_changed and pc.size is not None and cbs == 0 and not any(t.early for t in pc.tasks):
+                # (a task cancelled before its first step leaks its slot: recorded finding F-EARLY, decided by C02)
                 full = p.is_full
                 if full != (nr == pc.size):
                     self.violate("C01", "is_full", f"idle: is_full={full} with num_running={nr}, size={pc.size}")
@@ -1223,7 +1233,7 @@ class Sim:
                     targets.append(t)
             else:
                 bad_classes |= cls
-        if self.clean and any(t.state == "U" for t in targets):
+        if "F-EARLY" in self.steer and any(t.state == "U" for t in targets):
             return self._steer("F-EARLY")
         if self._self_cancel_grey(ctx, targets):
             return False
@@ -1274,7 +1284,7 @@ class Sim:
             if ctx is not None and ctx[0] in ("it", "fa") and ctx[1] is req:
                 return False
             targets = self._group_targets(req)
-            if self.clean and any(t.state == "U" for t in targets):
+            if "F-EARLY" in self.steer and any(t.state == "U" for t in targets):
                 return self._steer("F-EARLY")
             if self._self_cancel_grey(ctx, targets):
                 return False
@@ -1319,7 +1329,7 @@ class Sim:
         if ctx is not None and ctx[0] in ("it", "fa"):
             return False
         targets = [t for r in pc.live_names.values() for t in self._group_targets(r)]
-        if self.clean and any(t.state == "U" for t in targets):
+        if "F-EARLY" in self.steer and any(t.state == "U" for t in targets):
             return self._steer("F-EARLY")
         if self._self_cancel_grey(ctx, targets):
             return False
@@ -1343,7 +1353,7 @@ class Sim:
             exp = running
         else:
             exp = running[:max(0, n)]
-        if self.clean and any(t.state == "U" for t in exp):
+        if "F-EARLY" in self.steer and any(t.state == "U" for t in exp):
             return self._steer("F-EARLY")
         if self._self_cancel_grey(ctx, exp):
             return False
@@ -1372,7 +1382,7 @@ class Sim:
             return False
         out = self._apply_outstanding(pc)
         if out:
-            if self.clean:
+            if "F-LOCK" in self.steer:
                 return self._steer("F-LOCK")
             for r in out:
                 r.lock_hit = True
@@ -1486,7 +1496,7 @@ class Sim:
             return False
         out = self._apply_outstanding(pc)
         if out:
-            if self.clean:
+            if "F-LOCK" in self.steer:
                 return self._steer("F-LOCK")
             for r in out:
                 r.lock_hit = True
@@ -1499,7 +1509,7 @@ class Sim:
         pc = d.pc
         # the lock may have been steered away at step time but apply spawners may have appeared since
         out = self._apply_outstanding(pc)
-        if out and self.clean:
+        if out and "F-LOCK" in self.steer:
             self.stats["steered:F-LOCK"] += 1
             d.state = "dropped"
             return
@@ -1797,7 +1807,7 @@ class Sim:
                 exp_c = 1 if (t.exit_how == "cancel" and ck is not None) else 0
                 if t.ccb_calls != exp_c:
                     self.violate("C03", "ccb_count", f"cancel callback ran {t.ccb_calls}x for {t.name} (coroutine ended by {t.exit_how})")
-                if t.pend_cancel > 0 and t.exit_how != "cancel" and t.cancel_obs == 0:
+                if t.pend_cancel > 0 and t.exit_how != "cancel" and t.cancel_obs == 0 and not t.early:
                     self.violate(t.pend_prop or "C06", "cancel_lost", f"{t.name} was cancelled but never observed it")
             if pc.n_run:
                 self.violate("C02", "running_at_end", f"end of run: {pc.n_run} tasks still counted as running")
